@@ -649,10 +649,77 @@ pub fn case_exhaustive_replay(bytes: &[u8], _s: &[u8], ctx: &mut Ctx) -> Result<
     oracle(case, &run, ctx)
 }
 
+/// The bucket as a histogram storage (`HistogramFn for AtomicBucket<f64>`, also behind a `metrics::Histogram` handle): every
+/// f64 handed to record / record_many — NaN, infinities, -0.0 included — is a value like any other: visible to every later
+/// snapshot read and is_empty, handed to exactly one clearing read, compared here bit for bit.
+pub fn case_histogram_entry(bytes: &[u8], _s: &[u8], ctx: &mut Ctx) -> Result<(), Fail> {
+    use metrics::HistogramFn;
+    let mut src = Source::new(bytes);
+    let n = 1 + src.below(30);
+    #[derive(Debug)]
+    enum Step {
+        Record(f64),
+        Many(f64, usize),
+        ViaHandle(f64),
+        Read,
+        Clear,
+    }
+    let steps: Vec<Step> = (0..n)
+        .map(|_| match src.below(8) {
+            0 | 1 | 2 => Step::Record(src.f64_interesting()),
+            3 => Step::Many(src.f64_interesting(), src.below(70)),
+            4 => Step::ViaHandle(src.f64_interesting()),
+            5 | 6 => Step::Read,
+            _ => Step::Clear,
+        })
+        .collect();
+    ctx.case(&steps);
+    let bucket: std::sync::Arc<AtomicBucket<f64>> = std::sync::Arc::new(AtomicBucket::new());
+    let handle = metrics::Histogram::from_arc(bucket.clone());
+    let mut model: Vec<u64> = vec![];
+    let sorted = |v: &[u64]| {
+        let mut v = v.to_vec();
+        v.sort();
+        v
+    };
+    for (i, st) in steps.iter().enumerate() {
+        match st {
+            Step::Record(v) => {
+                HistogramFn::record(&*bucket, *v);
+                model.push(v.to_bits());
+            }
+            Step::Many(v, k) => {
+                HistogramFn::record_many(&*bucket, *v, *k);
+                model.extend(std::iter::repeat(v.to_bits()).take(*k));
+            }
+            Step::ViaHandle(v) => {
+                handle.record(*v);
+                model.push(v.to_bits());
+            }
+            Step::Read => {
+                let got: Vec<u64> = bucket.data().iter().map(|v| v.to_bits()).collect();
+                ensure!(sorted(&got) == sorted(&model), "snapshot-misses-completed-push", "step {}: data() holds {} values, {} were recorded and not cleared (bit patterns differ: {:?} vs {:?})", i, got.len(), model.len(), sorted(&got).iter().take(6).collect::<Vec<_>>(), sorted(&model).iter().take(6).collect::<Vec<_>>());
+            }
+            Step::Clear => {
+                let mut got: Vec<u64> = vec![];
+                bucket.clear_with(|vs| got.extend(vs.iter().map(|v| v.to_bits())));
+                ensure!(sorted(&got) == sorted(&model), "value-lost", "step {}: clear_with handed out {} values, {} were recorded since the previous clear", i, got.len(), model.len());
+                model.clear();
+            }
+        }
+        ensure!(bucket.is_empty() == model.is_empty(), "is_empty-true-with-completed-push", "step {} ({:?}): is_empty() = {} but {} recorded values are waiting", i, st, bucket.is_empty(), model.len());
+        if model.iter().any(|b| f64::from_bits(*b).is_nan() || f64::from_bits(*b).is_infinite()) {
+            ctx.nontrivial("non-finite-sample-through-the-histogram-entry-point");
+        }
+    }
+    Ok(())
+}
+
 pub fn run(cfg: &RunCfg, replay: Option<&str>) -> i32 {
     let mut pr = PropRun::new("C05", cfg, RULE);
     pr.register("schedules", &case_sched);
     pr.register("exhaustive-le2-preemptions", &case_exhaustive_replay);
+    pr.register("histogram-entry-point", &case_histogram_entry);
     if let Some(f) = replay {
         return pr.replay(f);
     }
@@ -665,6 +732,8 @@ pub fn run(cfg: &RunCfg, replay: Option<&str>) -> i32 {
     let r = run_lane(&c, "C05", &Lane { name: "schedules", cases: c.cases(1_000_000, 20_000_000), max_len: 32, sched_len: 96, workers: 0, f: &case_sched });
     pr.push(r);
     let r = exhaustive(&pr);
+    pr.push(r);
+    let r = run_lane(&c, "C05", &Lane { name: "histogram-entry-point", cases: c.cases(200_000, 5_000_000), max_len: 120, sched_len: 0, workers: 0, f: &case_histogram_entry });
     pr.push(r);
     let r = stress(&pr);
     pr.push(r);
